@@ -3,6 +3,7 @@ package rules
 import (
 	"strings"
 
+	"dcverif/internal/fsmx"
 	"dcverif/internal/load"
 	"dcverif/internal/ssax"
 
@@ -18,13 +19,15 @@ func C07(c *Ctx) {
 	r.Explain = "Liveness over delivery schedules cannot be decided statically. Decided are the structural preconditions without which the property cannot hold: (R1) on the collected path the dump that processMessage persists is the one returned by Do(event_signing_restart), and that restart comes only after a successful reconstruction and broadcast; " +
 		"(R2) answers to a finished batch are inert: partial-signature and error events have no transition from stage_signing_idle, a proposal is accepted only in idle (a batch in progress cannot be replaced), and a partial signature is bound to the current batch id; " +
 		"(R3) message processing is all-or-nothing around reconstruction: no durable effect lies between the FSM event and the reconstruction, and the final SaveFSM is reached on the collected path only past successful reconstruction and broadcast; " +
-		"(R4) the signing deadline cannot silently disable a round: if the callbacks advance the signing payload's UpdatedAt, every proposal must renew its ExpiresAt. " +
+		"(R4) the signing deadline cannot silently disable a round: if the callbacks advance the signing payload's UpdatedAt, every proposal must renew its ExpiresAt; " +
+		"(R5) event_signing_start replaces the signing quorum by a freshly made map on every accepting path and fills it only with freshly allocated entries, so partial signatures and statuses of a finished batch cannot leak into the next one. " +
 		"NOT decided: that reconstruction succeeds for every delivery order (tbls.Recover aborts on the first invalid share — recorded as an observation), polling, eventual delivery."
 	r.Trusted = []string{"go/ssa", "FSM engine model (C05/E)"}
 	r.Rule("C07/R1", "restart provenance: the saved dump is the restart's dump; restart only after reconstruction+broadcast succeeded", 3)
 	r.Rule("C07/R2", "late answers are inert; a proposal cannot replace a batch in progress", 4)
 	r.Rule("C07/R3", "all-or-nothing around reconstruction", 2)
 	r.Rule("C07/R4", "signing deadline is renewed per batch if it is live", 1)
+	r.Rule("C07/R5", "every proposal starts from a fresh quorum: nothing recorded for the previous batch (status, partial signatures) survives into the next", 2)
 	ms := c.Machines("C07/A1")
 	fn := c.Fn("C07/R1", pkgNode, "BaseNodeService", "processMessage")
 	if fn == nil || len(ms) != 3 {
@@ -105,6 +108,8 @@ func C07(c *Ctx) {
 		sprintf("final SaveFSM reachable on the collected path without successful reconstruction (%v) / broadcast (%v)", !okB, !okC))
 	// R4 deadline
 	c07Deadline(c)
+	// R5 fresh quorum per batch
+	c07FreshQuorum(c, m)
 	r.Note("C07 observation (not a verdict): kyber tbls.Recover verifies shares in order and aborts on the first invalid one instead of skipping it; with a junk share among the first t collected the batch is not reconstructed although t valid shares may exist later.")
 	r.Note("C07/C06 observation: signing error reports (event_signing_partial_sign_error_received) carry no BatchID, so they cannot be bound to a batch; a late error answer to a finished batch can be counted in the next one (wire-format limitation, outside the partial-signature clause checked by C06/R3).")
 }
@@ -165,4 +170,59 @@ func c07DeadlineAs(c *Ctx, rule string) {
 	}
 	r.Check(renew, rule, "signing_proposal_fsm:deadline", "if the signing deadline is live, every proposal renews ExpiresAt", "",
 		"callbacks advance SigningProposalPayload.UpdatedAt but event_signing_start does not renew ExpiresAt (set once at event_signing_init): a week after key generation every batch is cancelled by timeout at its first answer")
+}
+
+
+// c07FreshQuorum: the callback of event_signing_start stores a freshly made map into SigningProposalPayload.Quorum on every
+// path that accepts the proposal, and every entry put into that map there is a fresh allocation.
+func c07FreshQuorum(c *Ctx, m *fsmx.Machine) {
+	r := c.R
+	cb := m.Callbacks[evSigningStart]
+	if cb == nil {
+		r.Unknown("C07/R5", "signing_proposal_fsm:"+evSigningStart+":fresh-quorum", "the proposal callback is registered", "", "no callback for "+evSigningStart)
+		return
+	}
+	var stores []ssa.Instruction
+	fresh := true
+	detail := ""
+	ssax.Instrs(cb, func(in ssa.Instruction) {
+		switch x := in.(type) {
+		case *ssa.Store:
+			if strings.HasSuffix(ssax.Path(x.Addr), ".SigningProposalPayload.Quorum") {
+				if _, isMake := ssax.Resolve(x.Val).(*ssa.MakeMap); isMake {
+					stores = append(stores, in)
+				} else {
+					fresh, detail = false, "the quorum is assigned "+npath(x.Val)+" at "+c.PosOf(in)
+				}
+			}
+		case *ssa.MapUpdate:
+			mp := ssax.Resolve(x.Map)
+			_, isMake := mp.(*ssa.MakeMap)
+			if !isMake && !strings.HasSuffix(ssax.Path(x.Map), ".SigningProposalPayload.Quorum") {
+				return
+			}
+			if isMake && !strings.Contains(mp.Type().String(), "SigningProposalQuorum") && !strings.Contains(mp.Type().String(), "SigningProposalParticipant") {
+				return
+			}
+			if al, isAlloc := ssax.Resolve(x.Value).(*ssa.Alloc); !isAlloc || !al.Heap {
+				fresh, detail = false, "an entry that is not freshly allocated is put into the quorum at "+c.PosOf(in)+": "+npath(x.Value)
+			}
+		}
+	})
+	// every accepting return lies behind such a store
+	bypass := ""
+	for _, ret := range ssax.Returns(cb) {
+		if ret.Block() == cb.Recover || len(ret.Results) == 0 {
+			continue
+		}
+		ev := ret.Results[len(ret.Results)-1]
+		for _, lf := range ssax.Leaves(ev, ret) {
+			if ssax.IsNilConst(ssax.Resolve(lf.V)) && (len(stores) == 0 || ssax.ReachableAvoiding(cb, lf.At, nil, stores)) {
+				bypass = c.PosOf(ret)
+			}
+		}
+	}
+	r.Check(len(stores) > 0 && bypass == "", "C07/R5", "signing_proposal_fsm:"+evSigningStart+":fresh-quorum", "an accepted proposal replaces the quorum by a freshly made map", c.Pos(cb.Pos()),
+		sprintf("%d stores of a new map; an accepting return at %s is reachable without one: entries of the previous batch (their partial signatures) stay in the quorum and are handed to reconstruction with the new batch", len(stores), bypass))
+	r.Check(fresh, "C07/R5", "signing_proposal_fsm:"+evSigningStart+":fresh-entries", "the quorum of a new batch is filled with freshly allocated entries only", c.Pos(cb.Pos()), detail)
 }
